@@ -129,3 +129,36 @@ Definition P_b (c : case) : bool :=
 
 Definition mismatches (cs : list case) : list N := failing_ids c_id agree cs.
 Definition violations (cs : list case) : list N := failing_ids c_id P_b cs.
+
+(* What P_b = true says, position by position (P_b is the boolean form of the property on the
+   observed output). *)
+Lemma sigs_ok_sound ch : forall items sigs ver roots,
+  sigs_ok ch items sigs ver roots = true ->
+  length sigs = length items /\
+  forall i a m s, nth_error items i = Some (a, m) -> nth_error sigs i = Some s ->
+    (s = PZero /\ a_fail a = true) \/
+    (s <> PZero /\ nth_error ver i = Some true /\ nth_error roots i = Some (spec_signing_root Hc ch m)).
+Proof.
+  induction items as [|[a0 m0] items IH]; intros [|s0 sigs] ver roots Hok; cbn [sigs_ok] in Hok; try discriminate.
+  - split; [reflexivity|]. intros [|i] a m s Hi; discriminate.
+  - destruct ver as [|v ver]; [discriminate|]. destruct roots as [|r roots]; [discriminate|].
+    apply andb_true_iff in Hok as [Hhd Htl]. destruct (IH _ _ _ Htl) as [Hlen Hnth].
+    split; [cbn; congruence|].
+    intros [|i] a m s Hi Hs; cbn in Hi, Hs.
+    + injection Hi as <- <-. injection Hs as <-.
+      assert (Hnz : s0 <> PZero -> v && (r =? spec_signing_root Hc ch m0) = true).
+      { intro Hne. destruct s0; try exact Hhd. congruence. }
+      destruct s0; try (right; split; [discriminate|]; specialize (Hnz ltac:(discriminate));
+                        apply andb_true_iff in Hnz as [Hv Hr]; apply N.eqb_eq in Hr; rewrite Hv, Hr; split; reflexivity).
+      left. split; [reflexivity | exact Hhd].
+    + cbn. eapply Hnth; eassumption.
+Qed.
+
+Lemma P_b_sound c sigs :
+  P_b c = true -> c_out c = OOk sigs ->
+  length sigs = length (request_items (c_req c)) /\
+  forall i a m s, nth_error (request_items (c_req c)) i = Some (a, m) -> nth_error sigs i = Some s ->
+    (s = PZero /\ a_fail a = true) \/
+    (s <> PZero /\ nth_error (c_verified c) i = Some true /\
+     nth_error (c_roots c) i = Some (spec_signing_root Hc (c_chain c) m)).
+Proof. unfold P_b. intros Hp Ho. rewrite Ho in Hp. apply sigs_ok_sound. exact Hp. Qed.
